@@ -167,6 +167,30 @@ impl<'ast> Visit<'ast> for LoopFinder {
                 }
             }
         }
+        // D11: X.iter().map(|PAT| EXPR).sum::<T>()
+        if e.method == "sum" && e.args.is_empty() && e.turbofish.is_some() {
+            if let syn::Expr::MethodCall(mp) = &*e.receiver {
+                if mp.method == "map" && mp.args.len() == 1 {
+                    if let (syn::Expr::Closure(c), syn::Expr::MethodCall(it)) = (&mp.args[0], &*mp.receiver) {
+                        if it.method == "iter" && it.args.is_empty() && c.inputs.len() == 1 {
+                            let mut ef = EscapeFinder::default();
+                            ef.visit_expr(&c.body);
+                            if ef.escapes == 0 {
+                                let call = e.span().byte_range();
+                                let recv = mp.receiver.span().byte_range();
+                                let pat = c.inputs[0].span().byte_range();
+                                let body = c.body.span().byte_range();
+                                let tf = e.turbofish.as_ref().unwrap().args.span().byte_range();
+                                self.vd.push(format!(
+                                    "{{\"rule\":\"D11\",\"call\":[{},{}],\"recv\":[{},{}],\"pat\":[{},{}],\"body\":[{},{}],\"ty\":[{},{}]}}",
+                                    call.start, call.end, recv.start, recv.end, pat.start, pat.end, body.start, body.end, tf.start, tf.end
+                                ));
+                            }
+                        }
+                    }
+                }
+            }
+        }
         // D4: RECV.for_each(|PAT| BODY)   (RECV ends in `.iter()`, body has no return/break/continue/?)
         if e.method == "for_each" && e.args.len() == 1 {
             if let (syn::Expr::Closure(c), syn::Expr::MethodCall(inner)) = (&e.args[0], &*e.receiver) {
